@@ -61,9 +61,44 @@ PROPS["C01"] = {
     "assumptions": COMMON_ASSUME + ["that the rewrite traversal visits exactly the tables an independent walker finds is checked per case (Spec_C01 on the real output), not yet proved"],
 }
 
+for _pid, _extra in (("C02", "every rewritten output is really concatenated with the media span and re-sanitized by the harness"),
+                     ("C03", "every provided reader kind: seek-based (SeekSkipAdapter over a Cursor-like Read+Seek) and a strict custom Skip; until-EOF mdat with cumulative sizes {none,0,1,7,8,9,exact-1,exact,exact+1,..,2^32-1}; declared sizes overrunning the input by {1,2,8,900,2^20,2^32+3,2^62,2^64-41} on every skippable box kind; exhaustive top-level layouts up to length 3 (4 in thorough)"),
+                     ("C04", "rich trees: unknown and uuid siblings before/after the box of interest at all five levels, 64-bit and until-end child headers, ftyp payloads with 0-3 trailing bytes"),
+                     ("C05", "exhaustive top-level layouts up to length 4 (5 in thorough) over {ftyp,moov,mdat,free,skip,meta,meco,unknown,uuid}; size-field pathologies (0,1,2,7,8,9; 64-bit exact/+-1/15/16/max/0) on each box kind in each position; ftyp payload lengths {0,4,7,8,9,11,12,1020,1023,1024,1025,2000} and isom placement; 40 moov-tree mutants (missing/duplicate/extra box per level, malformed tables, child size pathologies) x {no-op, rewrite} x limits {0,size-1,size,size+1,2^64-1}; every truncation point of selected files")):
+    PROPS[_pid] = {
+        "extract": [],
+        "rule": MP4_RULE + "; additionally for this property: " + _extra,
+        "trivial_if_any": ["boxes0", "boxes1"],
+        "shards": {"quick": 4, "thorough": 16},
+        "trusted_base": MP4_TRUSTED,
+        "assumptions": COMMON_ASSUME + ["the whole-run statement of this property is evaluated on the implementation's output for every generated case (Spec in MediaSan/Spec/Mp4Rules.lean); the theorems cover the components named in the Props file"],
+    }
+PROPS["C05"]["exhaustive"] = {"quick": True, "thorough": True}
+PROPS["C05"]["explanation"] = "exhaustive = all top-level layouts up to the stated length over the 9-letter box alphabet"
+
 NOT_APPLICABLE = {}
 
 MANIFEST_TEXT = {
+    "C02": {
+        "text": "Lean theorems: the re-derived ftyp/moov headers always carry an explicit size declaring exactly header + payload (never until-EOF) and are well-formed (decode back, C16); the padding header is the 32-bit free box declaring exactly the pad; the assembled metadata is body ++ pad header ++ zeros of length metadata_len + pad. The fixpoint half is checked on the real code: the harness concatenates the returned metadata with the media span (sparse-aware), re-sanitizes, and the driver requires 'nothing to do' with span {|md|, len}; the model must agree on both runs.",
+        "note": "Partial: structure is proved; the re-sanitize fixpoint is established per generated case on the implementation (and compared with the model), not by a theorem. Trusted: Lean kernel and the three standard axioms; model validated differentially; walker; harness + driver.",
+        "technique": "Lean 4 proof of the output structure + differential correspondence incl. a real re-sanitize of every rewritten output",
+    },
+    "C03": {
+        "text": "Lean theorems on the ideal cursor of both kinds: the end-of-scan check passes iff position <= length (else TruncatedBox) - the mechanism that rejects overrunning boxes on seekable readers; strict skips/reads never leave the stream; seekable skips land exactly at pos+n without wrapping; span bookkeeping keeps the span contiguous. Spec_C03 (span inside input, starts at first mdat, ends with the maximal mdat/free/skip/meta/meco run, every mdat inside, overrunning input never accepted) is evaluated on the real output for seek-based and strict readers over layouts, overruns and until-EOF/cumulative cases.",
+        "note": "Partial: the loop invariant lifting the component lemmas to every run is not yet proved; the whole-run statement is checked per case on the implementation. The check found defect F1 (overrunning box accepted on seekable readers), repaired in /repo commit bdda8a4. Trusted: as C01.",
+        "technique": "Lean 4 proof of cursor/span lemmas + differential correspondence across reader kinds with spec evaluation on the implementation's output",
+    },
+    "C04": {
+        "text": "Lean theorems: the table rewrite preserves width, count, array length, serialized length and the 8 bytes before the array; a parsed ftyp re-serializes to its bytes for every length >= 8. Spec_C04 compares, on the real output, the ftyp payload and every moov payload byte outside the walker's tables with the input, on rich trees (unknown/uuid siblings at all five levels, 64-bit and until-end child headers).",
+        "note": "Partial: the frame property over the whole tree is checked per case on the implementation; the theorem covers the mutation itself and the ftyp codec. Trusted: as C01.",
+        "technique": "Lean 4 proof of the rewrite's frame at table level + byte-level differential check against an independent walker",
+    },
+    "C05": {
+        "text": "Lean theorems (decision logic stated outright): a chunk-offset table is accepted iff version/flags are zero, the count exactly fills the box and the table is below 4 GiB, with the error kind of each violation; after the scan missing ftyp/moov/mdat is MissingRequiredBox and 'nothing to do' is returned iff the last moov starts before the first mdat; ftyp payloads below 8 bytes are TruncatedBox. Spec_C05 (accepted iff Rules and not an overflow refusal; no-op iff moov first), written over the independent walker, is evaluated on the real code over exhaustive top-level layouts, header pathologies, every moov-tree rule broken in turn and truncations, for both reader kinds.",
+        "note": "Partial: the equivalence accepted <-> Rules is not yet a theorem; it is decided per generated case on the implementation. The check found defect F1 (see C03). Trusted: as C01.",
+        "technique": "Lean 4 proof of the component decisions + exhaustive small-layout differential check against a declarative rule set",
+    },
     "C01": {
         "text": "Lean theorems about the model of the MP4 rewrite: planRewrite arithmetic (shift = |metadata| - span.offset, fits i32, padding only when it zeroes the shift, refusal iff neither fits), exactness of the table rewrite for every width/count/displacement (each entry = old + shift, field never wraps, refusal iff an entry leaves its field, no panic), and the per-entry test equals the extracted checked_add_signed. The model is compared with the real crate on the remux generator (sparse gaps up to > 2^33, boundary entries, both reader kinds) and Spec_C01 (independent walker: same tables, every entry shifted by |md| - span.offset) is evaluated on the real output of every case.",
         "note": "Partial: the theorems cover the decision arithmetic and the table rewrite; that the traversal reaches exactly the tables of every trak is established per generated case by the walker-based Spec, not by a theorem. Trusted: Lean kernel; propext, Quot.sound, Classical.choice; the hand-written model (validated differentially); the walker; harness + driver.",
